@@ -82,7 +82,15 @@ def gen_cases(ctx):
             if rng.random() < 0.25:
                 steps.append(dict(kind="derive", name=rng.choice(DERIVS)))
             steps.append(dict(kind="query", name=q, cfg=dict(max_cholesky_size=rng.choice([None, None, 0]), fast_root=rng.choice([None, None, False]),
-                                                              max_root_decomposition_size=rng.choice([None, None, n + 2])), seed=rng.randrange(1 << 30)))
+                                                              max_root_decomposition_size=rng.choice([None, None, n + 2, max(1, n // 2)])), seed=rng.randrange(1 << 30)))
+        if rng.random() < 0.15:
+            # directed: a rank-truncated Lanczos answer lands in the cache, the object is derived from, and the derived object is asked
+            # for an explicit method (derived classes that delegate to their parent must pass the method on, not read the parent's cache)
+            trunc = dict(max_cholesky_size=rng.choice([None, 0]), fast_root=None, max_root_decomposition_size=max(1, n // 2))
+            dflt = dict(max_cholesky_size=None, fast_root=None, max_root_decomposition_size=None)
+            steps = [dict(kind="query", name=rng.choice(["root_inv_lanczos", "root_lanczos", "diagonalization_lanczos", "root", "root_inv"]), cfg=trunc, seed=rng.randrange(1 << 30)),
+                     dict(kind="derive", name=rng.choice(DERIVS)),
+                     dict(kind="query", name=rng.choice(["root_cholesky", "root_symeig", "root_inv_cholesky", "cholesky", "solve", "logdet", "root", "root_inv"]), cfg=dflt, seed=rng.randrange(1 << 30))]
         yield dict(spec=spec, steps=steps[:8], rseed=rng.randrange(1 << 30))
 
 
@@ -448,6 +456,7 @@ def _run_history(case, ctx, keep_alive, snaps, kw_box):
     dt = Hd.dtype
     allowance = 0.0
     lanczos_seen = False
+    trunc_seen = False
     seen = set()
     # snaps: canonical value of every memo entry when it was first seen (entries must never change afterwards)
     keep_alive.append((H, Hd))  # ids stay unique while the objects live; (owner, dense) of the whole lineage
@@ -487,6 +496,12 @@ def _run_history(case, ctx, keep_alive, snaps, kw_box):
             for _, (nm, err, _b, _G) in entry_errors(H, Hd).items():
                 if err is not None and err == err and err != float("inf"):
                     allowance = max(allowance, err)
+            # a rank-deficient root (Lanczos truncated by max_root_decomposition_size < n) may approximate the matrix well while no
+            # factor built from it can approximate the inverse: what a transplant of it should look like is not defined either
+            for key, val in list(getattr(H, "_memoize_cache", {}).items()):
+                if _key_parts(key)[0] == "root_decomposition" and hasattr(val, "root") and val.root.shape[-1] < Hd.shape[-1]:
+                    allowance = max(allowance, 1.0)
+                    ctx.stat("parent_root_rank_deficient")
             H, Hd = res
             derivs.append((st["name"], seed))
             if torch.is_tensor(H):
@@ -524,6 +539,8 @@ def _run_history(case, ctx, keep_alive, snaps, kw_box):
         ctx.stat("cache_hits", hits)
         lanczos = rec.count("lanczos.end") > 0
         lanczos_seen = lanczos_seen or lanczos
+        mrs = cfg.get("max_root_decomposition_size")
+        trunc_seen = trunc_seen or (lanczos and mrs is not None and mrs < Hd.shape[-1])
         if lanczos_seen:
             kw = dict(kw, tags=set(kw["tags"]) | {"after_lanczos"})
         if not ok_fresh:
@@ -553,10 +570,19 @@ def _run_history(case, ctx, keep_alive, snaps, kw_box):
             ctx.fail(name, "shape", detail=f"with history {tuple(got.shape)}, fresh {tuple(want.shape)}", **kw)
         else:
             err = compare.relerr(got, want, scale=1e-6)
-            if not err <= tol * (100 if name.startswith("root_inv") else 1) and lanczos_seen and _both_compressions(name, got, want, Hd):
-                # a Krylov space exhausted early (repeated eigenvalues) gives the compression onto a random subspace: both answers are
-                # what the method legitimately returns and they are not comparable with each other
+            if not err <= tol * (100 if name.startswith("root_inv") else 1) and lanczos and _both_compressions(name, got, want, Hd):
+                # a Krylov space exhausted early (repeated eigenvalues) or truncated (max_root_decomposition_size) gives the compression
+                # onto a random subspace: both answers are what the method legitimately returns and they are not comparable with each
+                # other.  Only when a Lanczos run took place during THIS query (on either object): an answer read from a cache is
+                # excused by the RNG-dependence test below, which asks whether the query legitimately is Lanczos-based
                 ctx.stat("answers_are_krylov_compressions_not_comparable")
+            elif (not err <= tol * (100 if name.startswith("root_inv") else 1) and hits > 0 and lanczos_seen and name in ("root", "root_inv", "diagonalization", "root_lanczos", "root_inv_lanczos", "diagonalization_lanczos")
+                  and _both_compressions(name, got, got, Hd)):
+                # memo keys carry the arguments, not the settings: a default-method / Lanczos answer computed by an earlier Lanczos run
+                # (truncated by max_root_decomposition_size, or with an exhausted Krylov space) is what the cache legitimately returns
+                # now; it is the compression the method produced then.  Queries naming a direct method (cholesky, symeig) are never
+                # excused this way.
+                ctx.stat("cached_answer_of_earlier_lanczos_run_is_compression_not_comparable")
             elif not err <= tol * (100 if name.startswith("root_inv") else 1) and _rng_dependent(spec, derivs, cfgs[-4:] if hits else [cfg], n, name, seed, want, tol):
                 # the history-free answer itself changes with the global RNG state (random Lanczos start vectors whose Krylov space
                 # is exhausted early): there is no single fresh answer to compare with
